@@ -23,8 +23,22 @@ ASSUMPTIONS = [
 ]
 
 
-def proof_stage(chk, theorems):
+def proof_stage(chk, theorems, e2e_theorems=None):
     files = [f for f in vlib.coq_files(AREA) if f not in ("Extract.v",)]
+    if e2e_theorems:
+        # the property also claims theorems of the composed development (coq/e2e): writers x codec x readers
+        codec = os.path.join(VERIF, "coq", "codec")
+        writers = os.path.join(VERIF, "coq", "writers")
+        e2e = os.path.join(VERIF, "coq", "e2e")
+        return vlib.proof_stage(
+            chk, coq_dirs=[BASE, codec, writers, AREA, e2e], build_dir=e2e,
+            qflags="-Q ../base FlacBase -Q ../codec FlacCodec -Q ../writers FlacWriters -Q ../readers FlacReaders -Q . FlacE2E",
+            requires=REQUIRES + ["FlacE2E.Bridge", "FlacE2E.E2E", "FlacE2E.Props_E2E"], theorems=theorems + e2e_theorems,
+            obligation_files=[(AREA, files), (e2e, vlib.coq_files(e2e))],
+            gen_steps=["python3 %s/tools/gen_crc.py %s %s/GenCrc.v" % (VERIF, vlib.REPO, BASE),
+                       "python3 %s/tools/gen_readers.py %s %s/anchors.json" % (VERIF, vlib.REPO, AREA),
+                       "python3 %s/tools/gen_stream.py %s %s/GenStream.v" % (VERIF, vlib.REPO, codec),
+                       "python3 %s/tools/gen_writers.py %s %s/GenWriters.v" % (VERIF, vlib.REPO, writers)])
     return vlib.proof_stage(
         chk, coq_dirs=[BASE, AREA], build_dir=AREA, qflags=QFLAGS, requires=REQUIRES, theorems=theorems,
         obligation_files=[(AREA, files)],
